@@ -55,28 +55,43 @@ def validate(behaviours, module, cfg, workdir, chunk_lines=4000, timeout=900, jo
                 for ln in behaviours[bi]:
                     f.write(ln if ln.endswith("\n") else ln + "\n"); n += 1
         tasks.append((module, cfg, p, n, timeout, dfs))
-    res = []
-    with cf.ThreadPoolExecutor(max_workers=jobs) as ex:
-        res = list(ex.map(_run_chunk, tasks))
     failures, broken = [], []
     tot_d = tot_g = 0
-    for ci, r in enumerate(res):
-        tot_d += r["distinct"]; tot_g += r["generated"]
-        if r["accepted"]:
-            continue
-        if r["error"] and r["violated"] is None:
-            broken.append(r); continue
-        # locate the behaviour holding the first unmatched line
-        m = r["matched"] if r["matched"] is not None else 0
-        pos = 0; hit = None
-        for bi in chunks[ci]:
-            if m < pos + len(behaviours[bi]):
-                hit = bi; break
-            pos += len(behaviours[bi])
-        if hit is None:
-            hit = chunks[ci][-1]; pos -= len(behaviours[hit])
-        failures.append(dict(behaviour=hit, line_in_behaviour=m - pos, violated=r["violated"], chunk=r["path"], tail=r["out_tail"]))
-    return dict(chunks=len(chunks), failures=failures, broken=broken, distinct=tot_d, generated=tot_g)
+    nchunks = len(chunks)
+    rounds = 0
+    while tasks:
+        rounds += 1
+        with cf.ThreadPoolExecutor(max_workers=jobs) as ex:
+            res = list(ex.map(_run_chunk, tasks))
+        ntasks, nchunk_list = [], []
+        for ci, r in enumerate(res):
+            tot_d += r["distinct"]; tot_g += r["generated"]
+            if r["accepted"]:
+                continue
+            if r["error"] and r["violated"] is None:
+                broken.append(r); continue
+            # locate the behaviour holding the first unmatched line
+            m = r["matched"] if r["matched"] is not None else 0
+            pos = 0; hit = None
+            for bi in chunks[ci]:
+                if m < pos + len(behaviours[bi]):
+                    hit = bi; break
+                pos += len(behaviours[bi])
+            if hit is None:
+                hit = chunks[ci][-1]; pos -= len(behaviours[hit])
+            failures.append(dict(behaviour=hit, line_in_behaviour=m - pos, violated=r["violated"], chunk=r["path"], tail=r["out_tail"]))
+            # a chunk stops at its first failure: the behaviours behind it have not been looked at yet -- run them as a new chunk
+            rest = chunks[ci][chunks[ci].index(hit) + 1:]
+            if rest:
+                p = os.path.join(workdir, "chunk%05d_r%d.ndjson" % (len(nchunk_list), rounds))
+                n = 0
+                with open(p, "w") as f:
+                    for bi in rest:
+                        for ln in behaviours[bi]:
+                            f.write(ln if ln.endswith("\n") else ln + "\n"); n += 1
+                ntasks.append((module, cfg, p, n, timeout, dfs)); nchunk_list.append(rest)
+        tasks, chunks = ntasks, nchunk_list
+    return dict(chunks=nchunks, failures=failures, broken=broken, distinct=tot_d, generated=tot_g)
 
 
 def confirm(behaviour, module, cfg, workdir, timeout=300, dfs=False):
